@@ -137,7 +137,7 @@ impl Property for Total {
     }
     fn budget(&self, tier: Tier) -> Budget {
         Budget {
-            cases: tier.pick(600_000, 40_000_000),
+            cases: tier.pick(1_500_000, 40_000_000),
             tape_len: 4000,
         }
     }
